@@ -6,7 +6,6 @@ import (
 	"fmt"
 	"io"
 	"sync"
-	"time"
 
 	"github.com/golang/snappy"
 
@@ -197,6 +196,8 @@ func runStream(c *core.Ctx, procs int) {
 	}
 	reader := func(sc scT, raw *pconn, d dirSpec, res *dirResult) {
 		defer wg.Done()
+		// a reader that gives up (error, contract breach) must not leave its writer blocked on a full pipe
+		defer raw.in.closeRead()
 		maxk := 1
 		for _, k := range d.Reads {
 			if k > maxk {
@@ -243,9 +244,7 @@ func runStream(c *core.Ctx, procs int) {
 	go reader(sca, pa, dBA, &resBA)
 	done := make(chan struct{})
 	go func() { wg.Wait(); close(done) }()
-	select {
-	case <-done:
-	case <-time.After(watchdog):
+	if waitDone(done, pa.out.prog) {
 		c.Inconclusive("watchdog: stream case did not finish")
 		pa.Close()
 		pb.Close()
@@ -297,16 +296,25 @@ func summarize(d dirSpec) map[string]interface{} {
 
 func checkDir(c *core.Ctx, name string, d dirSpec, data []byte, res *dirResult, desc map[string]interface{}) {
 	w := map[string]interface{}{"direction": name, "case": desc}
+	if res.overread != "" {
+		c.Violation("sc/read-contract", name+": "+res.overread, w)
+		return
+	}
+	if res.rerr != nil && res.rerr != io.EOF {
+		// the transport is reliable and the writer only half-closes after its last byte
+		pre := "a correct prefix"
+		if len(res.got) > len(data) || !bytes.Equal(res.got, data[:len(res.got)]) {
+			pre = "NOT a prefix of what was written"
+		}
+		c.Violation("sc/read-error", fmt.Sprintf("%s: Read failed with %q after %d of %d bytes (%s)", name, res.rerr, len(res.got), len(data), pre), w)
+		return
+	}
 	if res.werr != nil {
 		c.Violation("sc/write-error", fmt.Sprintf("%s: Write failed on a reliable transport: %v", name, res.werr), w)
 		return
 	}
 	if res.wshort != "" {
 		c.Violation("sc/write-count", name+": "+res.wshort, w)
-		return
-	}
-	if res.overread != "" {
-		c.Violation("sc/read-contract", name+": "+res.overread, w)
 		return
 	}
 	c.Count("sc_bytes", int64(len(res.got)))
@@ -342,10 +350,6 @@ func checkDir(c *core.Ctx, name string, d dirSpec, data []byte, res *dirResult, 
 		w["read_err"] = fmt.Sprint(res.rerr)
 		c.Violation(key, fmt.Sprintf("%s: wrote %d bytes, read %d bytes, first difference at offset %d (write #%d, offset %d in it), read ended with %v",
 			name, len(data), len(res.got), i, wi, i-off, res.rerr), w)
-		return
-	}
-	if res.rerr != io.EOF {
-		c.Violation("sc/read-error", fmt.Sprintf("%s: all %d bytes arrived but Read ended with %v instead of io.EOF after the writer half-closed", name, len(data), res.rerr), w)
 		return
 	}
 	c.Count("sc_streams_verified", 1)
